@@ -507,6 +507,8 @@ def oracle(case, impl, ref):
         if o["op"] == "cell" and o.get("text") == CELL_REG["text"] and reg_ok and before["st"] == "ENABLED" \
            and not before["errored"]:
             c = ent["cell"]
+            if c.get("natural_db"):
+                continue      # the import database cannot be loaded: the importer rightly withdraws instead
             if c.get("error") is not None or "escaped" in c:
                 bad.append(("registered_kept", "step %d: a name registered with add_import() is no longer auto-imported while "
                             "ENABLED: %r" % (k, {x: c.get(x) for x in ("error", "escaped")})))
